@@ -193,6 +193,37 @@ type analyser struct {
 	called  map[*types.Func]bool        // has a caller inside the package
 }
 
+// shadowed reports whether an analysed struct embeds e by value and defines its own method `name`.
+func (a *analyser) shadowed(e *types.Named, name string) bool {
+	for s := range a.structs {
+		if s == e.Obj() {
+			continue
+		}
+		st, ok := s.Type().Underlying().(*types.Struct)
+		if !ok {
+			continue
+		}
+		embeds := false
+		for i := 0; i < st.NumFields(); i++ {
+			if f := st.Field(i); f.Embedded() && namedOf(f.Type()) == e {
+				if _, isPtr := f.Type().(*types.Pointer); !isPtr {
+					embeds = true
+				}
+			}
+		}
+		if !embeds {
+			continue
+		}
+		obj, _, _ := types.LookupFieldOrMethod(types.NewPointer(s.Type()), true, a.l.pkg, name)
+		if fn, ok := obj.(*types.Func); ok {
+			if rn := namedOf(fn.Type().(*types.Signature).Recv().Type()); rn != nil && rn.Obj() == s {
+				return true
+			}
+		}
+	}
+	return false
+}
+
 func namedOf(t types.Type) *types.Named {
 	for {
 		switch x := t.(type) {
@@ -926,6 +957,12 @@ func analyseStructs(l *loaded, names ...string) {
 		}
 		if !fn.Exported() && a.called[fn] {
 			continue // reached through its callers, with their locks
+		}
+		if a.called[fn] && a.shadowed(rn, fn.Name()) {
+			// an exported method of an embedded struct that the embedding analysed struct redefines
+			// (UnverifiedBlockBody.Clone under Block.Clone): x.M() never reaches it, only the explicit
+			// x.Embedded.M() inside this package does; treated like a helper, with its callers' locks
+			continue
 		}
 		if len(decl.Recv.List) != 1 || len(decl.Recv.List[0].Names) != 1 {
 			continue // receiver unnamed: no field access possible
